@@ -148,6 +148,7 @@ func probeLib() *r.Library {
 // ------------------------------------------------------------------ generator
 
 type xGen struct {
+	usedDeep bool
 	t      *zsim.Tape
 	probes int
 	locals int
@@ -220,6 +221,7 @@ func genExcProgram(t *zsim.Tape) *xProgram {
 				}
 				fs, cs = visible()
 				mb.Stmts = g.stmts(mb, fs, cs, 1+t.Draw(4), 1, true)
+				g.declFault(mb)
 				g.catches(mb, fs, cs)
 				c.Methods = append(c.Methods, mb)
 			}
@@ -246,6 +248,7 @@ func genExcProgram(t *zsim.Tape) *xProgram {
 				rs := &xStmt{Kind: "recurse", Fn: fb.Name, Var: g.local()}
 				fb.Stmts = append(fb.Stmts[:pos], append([]*xStmt{rs}, fb.Stmts[pos:]...)...)
 			}
+			g.declFault(fb)
 			g.catches(fb, fs, cs)
 			m.Funcs = append(m.Funcs, fb)
 			g.funcs = append(g.funcs, fb)
@@ -254,12 +257,24 @@ func genExcProgram(t *zsim.Tape) *xProgram {
 			m.Main = &xBody{Kind: "program", Module: m.Name, Name: "主程序"}
 			fs, cs := visible()
 			m.Main.Stmts = g.stmts(m.Main, fs, cs, 2+t.Draw(5), 1, true)
+			g.declFault(m.Main)
 			g.catches(m.Main, fs, cs)
 		}
 		m.CRLF = t.Draw(6) == 0
 		p.Mods = append([]*xModule{m}, p.Mods...)
 	}
 	return p
+}
+
+// declFault puts, into one body in twelve, a declaration that fails while it is being declared
+// (declarations are evaluated before the other statements of their block).
+func (g *xGen) declFault(b *xBody) {
+	if g.t.Draw(12) != 11 {
+		return
+	}
+	st := &xStmt{Kind: "declbad", Num: g.t.Draw(2)}
+	pos := g.t.Draw(len(b.Stmts) + 1)
+	b.Stmts = append(b.Stmts[:pos], append([]*xStmt{st}, b.Stmts[pos:]...)...)
 }
 
 func (g *xGen) catches(b *xBody, fs []*xBody, cs []*xClass) {
@@ -428,6 +443,12 @@ func (g *xGen) stmtsIn(b *xBody, fs []*xBody, cs []*xClass, n int, depth int, to
 			}
 			if f.Recur {
 				st.Arg = g.t.Draw(4) // recursion depth 0..3
+				// depth is a size like any other: once per program, and only from the main body
+				// (so that the cost stays linear), a recursion runs hundreds or thousands of frames deep
+				if b.Kind == "program" && !g.usedDeep && g.t.Draw(3) == 2 {
+					g.usedDeep = true
+					st.Arg = []int{40, 333, 1023, 1024, 1025, 1300, 2000, 2600}[g.t.Draw(8)]
+				}
 			}
 			if st.HasArg && g.t.Draw(10) == 9 {
 				st.ArgBad = true
@@ -640,6 +661,18 @@ func (x *xRender) stmts(indent int, ss []*xStmt) {
 			s.Line = x.emit(indent, "结束循环")
 		case "continue":
 			s.Line = x.emit(indent, "继续循环")
+		case "declbad":
+			if s.Num == 0 {
+				// a local class whose property initialiser fails while the class is being declared
+				s.Line = x.emit(indent, fmt.Sprintf("定义临%d：", x.line))
+				x.emit(indent+1, "其值 = 1 / 0")
+			} else {
+				// a constructor declared for something that is not a class
+				s.Line = x.emit(indent, "如何新建无此类？")
+				x.emit(indent+1, "输入文")
+				x.emit(indent+1, "其值 = 文")
+			}
+			x.emit(0, "")
 		case "div0":
 			s.Line = x.emit(indent, fmt.Sprintf("令%s = 1 / 0", s.Var))
 		case "conv":
@@ -851,6 +884,18 @@ func (m *xRef) raise(class, msg, kind string) *xRaise {
 // run executes a statement list in the top frame. ret != nil means 输出 was executed.
 func (m *xRef) run(ss []*xStmt) (ret *xVal, ex *xRaise) {
 	fr := m.frames[len(m.frames)-1]
+	// the declarations of a block (定义, 如何) are evaluated before its other statements, in
+	// textual order; a declaration that fails raises there, at its own line
+	for _, s := range ss {
+		if s.Kind == "declbad" {
+			m.steps++
+			fr.line = s.Line
+			if s.Num == 0 {
+				return nil, m.raise("异常", "被除数不得为0", "decl.initialiser")
+			}
+			return nil, m.raise("异常", "标识「无此类」未有定义", "decl.ctor-of-nothing")
+		}
+	}
 	for _, s := range ss {
 		m.steps++
 		fr.line = s.Line
@@ -1106,6 +1151,7 @@ func runExc(t *zsim.Tape, cfg *hlib.Config, prop string) *hlib.Outcome {
 	res := runFile(w, newInterp(probeLib()), "/proj/main.zn", nil)
 	w.Leave()
 	out.Faults = w.Faults
+	out.Probes = w.Probes
 	out.Trace = w.Trace()
 	raiseKind, caught := "none", "none"
 	if exp.Raise != nil {
